@@ -58,6 +58,10 @@ CLAIMED = {
   "nil-guard analysis of protobuf field dereferences driven by the proto2 struct tags (opt/req) from go/types; inter-procedural parameter-dereference summaries; struct-field coverage of encoder/decoder pairs against the Go struct and the identifying hash",
   "Totality on absent optional fields: every dereference of a pointer-typed field of a middleware/pb message, every access through an optional nested message, and every hand-over of one to a dereferencing function is guarded or the field is `req` (29 sites in types, core, consensus/net, network). Coverage: every field of Transaction, BlockHeader, GroupHeader, Group, Member, Block is read by its encoder and written by its decoder (4 reviewed exclusions, none hashed); *big.Int fields are rebuilt under a presence test. Value equality after a round trip is not decided.",
   "Trusted: proto2 Unmarshal rejects absent `req` fields; generated getters are nil-safe. The fix: commits b249124 (getters in the four converters, F9) and c9cb1bf (envelope Code, F20) repaired the findings; the rule re-checks them on every run."),
+ "C15": ("3/C15",
+  "guarded-by analysis (accept-edge conditions with operand roles) of the share-adding calls; sibling agreement of the two block-signing handlers; membership-test-before-insert on the recovery map; accept-edge analysis of round2",
+  "On every path of round1.Update a block share reaches the recovery set only after the member key lookup succeeded, the signed data hash equalled this block's hash and the share verified; the beacon share only after VerifySig(key, preBH.Random, share); both block-signing handlers compare the signed hash with a local one; duplicates are refused; round2 hands the block to the chain only after both recovered signatures verified under the group key. Recovery correctness (C13) and network behaviour are not decided.",
+  "Trusted: groupsig.VerifySig (C14); go/ssa. The fix: commit f4e6b61 (data-hash comparison in round1.Update) repaired finding F16; the rule re-checks it on every run."),
 }
 
 NOT_YET = {}
